@@ -166,7 +166,7 @@ def to_plain(n):
              "children": [k if isinstance(k, dict) else {"name": "<cycle>"} for k in kids]}
         for c, k in zip(x.children, d["children"]):
             if c.parent is not x and isinstance(k, dict) and "name" in k and k.get("name") != "<cycle>":
-                k["parent_link"] = "none" if c.parent is None else "elsewhere"
+                k["parent_link"] = "none" if c.parent is None else "elsewhere" if any(y is c for y in c.parent.children) else "elsewhere-unlisted"
         if any(not isinstance(k, str) for k in d["nsmap"]):
             # JSON object keys are strings: the default namespace (key None) travels as a list of pairs
             d["nsmap_pairs"] = [[k, v] for k, v in d.pop("nsmap").items()]
@@ -194,6 +194,10 @@ def from_plain(Node, d, fresh_ids=True, parent=None):
         elif spec.get("parent_link") == "elsewhere":
             n.parent = Node("verifFormerParent")
             n.parent.children.append(n)
+        elif spec.get("parent_link") == "elsewhere-unlisted":
+            # taken out of a parent that keeps other children of the same name; the link still names that parent
+            n.parent = Node("verifFormerParent")
+            n.parent.children.extend([Node(spec["name"], parent=n.parent), Node(spec["name"], parent=n.parent)])
         made.append((n, par))
         if par is None and root is None:
             root = n
